@@ -415,6 +415,11 @@ def value_shapes(tier):
             out.append((sig + ' [referenced value named first]', text2, {'expect': expect, 'nph': nph, 'vname': vname, 'dflt': dflt}))
     I = lambda k: V('int', term=k)
     add('C07 value INTEGER', [], 'v', 'INTEGER', str(PH(0)), I(0), 1)
+    # literals at the boundaries of the machine types (the lexer parses the digits: not part of the symbolic integers, which are
+    # substituted behind the lexer)
+    for n in (-(2**127), -(2**127) + 1, 2**127 - 1, 2**63, -(2**63) - 1, 2**64, 0, -1):
+        add(f"C07 value boundary INTEGER {n}", [], 'v', 'INTEGER', str(n), V('intc', n=n), 0)
+        add(f"C07 default boundary INTEGER {n}", [f'Ss ::= SEQUENCE {{ x INTEGER DEFAULT {n} }}'], None, None, None, V('intc', n=n), 0, dflt='ss_x_default')
     add('C07 value negative INTEGER', [], 'v', 'INTEGER', '-' + str(PH(0)), V('neg', inner=I(0)), 1)
     add('C07 value INTEGER ref-type', ['Tt ::= INTEGER'], 'v', 'Tt', str(PH(0)), I(0), 1)
     add('C07 value INTEGER ref-ref-type', ['Tt ::= INTEGER', 'Uu ::= Tt'], 'v', 'Uu', str(PH(0)), I(0), 1)
